@@ -73,7 +73,10 @@ def t_subdomain(c, rng):
     if not is_domain(c["host"]) or has_marker(c["host"]) or c.get("_marked"):
         return None
     d = copy.deepcopy(c)
-    d["host"] = rng.choice(MARKERS) + c["host"]
+    mk = rng.choice(MARKERS)
+    if mk.endswith("-") and c["host"].lower().startswith("xn--"):
+        return None  # 'amp-' glued on a punycode label makes a label that is no longer punycode: not a realistic host
+    d["host"] = mk + c["host"]
     d["_marked"] = True
     return d
 
